@@ -199,6 +199,11 @@ impl RttEstimator {
     }
 
     fn sample(&mut self, new_rtt: u32) {
+        // A sample beyond the maximum RTO cannot change the outcome (the RTO is clamped anyway),
+        // but after a long gap, e.g. a device that slept for days with a segment in flight, it
+        // would overflow the fixed-point arithmetic below.
+        let new_rtt = new_rtt.min(RTTE_MAX_RTO);
+
         if self.have_measurement {
             // RFC 6298 (2.3) When a subsequent RTT measurement R' is made, a host MUST set (...)
             let diff = (self.srtt as i32 - new_rtt as i32).unsigned_abs();
